@@ -25,5 +25,18 @@ META["C05"] = dict(
     technique="Lean 4 proof (generic schema round trip + prefix-stability of decode) + regenerated tables + differential correspondence",
 )
 
+META["C14"] = dict(
+    text="Lean 4 theorems: StringCodec/BytesCodec/BincodeCodec (generic over schemas) round trips, invalid UTF-8 is an error and never a wrong value, and the wire composition decode.unbatch.decompress.compress.batch.encode = id for any compressor that inverts itself; the compressors' own round trip is a named hypothesis tested for every algorithm x mode x level x payload class (that part is testing, labelled so)",
+    design_ref="DESIGN.md section 6, C14",
+    note="proof for codecs and composition; the library compression round trip is assumed (Compressor.Lossless) and tested, not proved",
+    technique="Lean 4 proof (codecs, composition) + exhaustive-by-configuration testing of library compressors",
+)
+META["C06"] = dict(
+    text="Lean 4 theorems that every decoding step Selium implements is total: MessageCodec::decode and the whole FramedRead stream (c06_frame_total, c06_stream_total), decode_message_batch (c06_batch_total, c06_batch_bounded), String/Bytes/Bincode codecs for every schema (c06_*_total), and the subscriber pipeline for a total decompressor (c06_pipeline_total_partial); models carry an explicit panic result, the correspondence runs each real decoder in a child process under an address-space limit and compares outcome classes",
+    design_ref="DESIGN.md section 6, C06",
+    note="library decompressors and serde internals are outside the model (hypothesis Compressor.Total, exercised in the guarded child)",
+    technique="Lean 4 totality proofs over models with explicit panics + guarded-child differential runs",
+)
+
 _PENDING = "not built yet in this session; planned at proof level (DESIGN.md section 6) — will be claimed as soon as its first theorem and correspondence suite exist"
 NOT_APPLICABLE = {f"C{n:02d}": _PENDING for n in range(1, 18)}
